@@ -113,6 +113,29 @@ structure Field where
   chain : List Meth
   deriving Repr
 
+/-- what a caller in the parser hands to a text parameter of a constructor of `ParseError` -/
+inductive Arg where
+  /-- a string literal -/
+  | lit
+  /-- a variable (the token, a piece of its text, the decoder's error), possibly behind `&`: handed over as it is -/
+  | var (name : String)
+  /-- `format!("…", x, y)` / `format!("…{x}…")` over variables only -/
+  | fmt
+  /-- anything computed at the call: a slice, a method chain, a helper -/
+  | other (text : String)
+  deriving Repr, DecidableEq
+
+/-- nothing is computed on the text at the call -/
+def Arg.plain : Arg → Bool
+  | .other _ => false
+  | _ => true
+
+structure CallArg where
+  file : String
+  constructor : String
+  arg : Arg
+  deriving Repr
+
 /-! ## model: a text through a chain of methods -/
 
 /-- the text after one method: modelled for the verbatim ones only -/
